@@ -180,7 +180,7 @@ func GenConfig(t *rapid.T, tier string, o GenOpts) Config {
 	big := 0
 	if o.BigOneIn > 0 && rapid.IntRange(1, o.BigOneIn).Draw(t, "big") == 1 {
 		big = rapid.SampledFrom([]int{150, 300, 300, 600, 600, 900}).Draw(t, "bigsize")
-		c.BF = rapid.SampledFrom([]uint{3, 4, 4, 5, 16, 16, 16}).Draw(t, "bigbf")
+		c.BF = rapid.SampledFrom([]uint{2, 3, 4, 4, 5, 16, 16, 16}).Draw(t, "bigbf")
 		if c.Val == VLong {
 			c.Val = VString
 		}
@@ -219,7 +219,7 @@ func GenBigLayerTable(t *rapid.T, n int, bf uint) []uint8 {
 			}
 			continue
 		}
-		for l := 0; l < 6 && x%uint32(base) == 0; l++ {
+		for l := 0; l < 11 && x%uint32(base) == 0; l++ {
 			out[i]++
 			x /= uint32(base)
 		}
